@@ -371,7 +371,7 @@ class Arnoldi(KrylovBased):
         """
         assert self.N_cache >= self.N_max
         N = self._build_krylov()
-        E0 = self.Es[N - 1, : min(N, self.num_ev)]  # there are only N Ritz values
+        E0 = self.Es[N - 1, : min(N, self.num_ev)].copy()  # there are only N Ritz values; copy: `Es` is reused
         if self.E_shift is not None:
             E0 = E0 - self.E_shift
         if N == 1:
